@@ -127,7 +127,8 @@ def _clauses(c):
 
 class LoopSpec:
     def __init__(self, qual, ordinal, invariants=None, vars=None, havoc=None,
-                 decreases=None, index=None, seq=None, unroll=None, ghost=None):
+                 decreases=None, index=None, seq=None, unroll=None, ghost=None, entry=None,
+                 head=None):
         self.qual, self.ordinal = qual, ordinal
         self.invariants = _clauses(invariants)
         self.vars = dict(vars or {})
@@ -137,6 +138,11 @@ class LoopSpec:
         self.seq = seq or '_seq'
         self.unroll = unroll
         self.ghost = ghost or {}
+        # entry: name -> spec expression evaluated once when the loop is reached (a snapshot,
+        # not havocked); head: name -> spec expression evaluated at the head of the arbitrary
+        # iteration, visible to the ghost steps
+        self.entry = entry or {}
+        self.head = head or {}
 
 
 class Spec:
@@ -905,7 +911,7 @@ class Spec:
             self.assumptions.append(text)
 
     def global_axioms(self, X):
-        return []
+        return list(getattr(self, 'extra_global_axioms', []))
 
     def loop_spec(self, X, fn, st):
         qual = getattr(fn, '_qual', None)
@@ -1032,6 +1038,9 @@ class FunctionRun:
         snap = X.snapshot()
         X.entry_env = env
         X.entry_snap = snap
+        if getattr(ct, 'ghost_prologue', None) is not None:
+            # ghost code run on entry (after old() is fixed); changes ghost state only
+            ct.ghost_prologue(X, env)
         yh = getattr(spec, 'yield_hooks', {}).get(self.qual.split('#')[0])
         if yh is not None:
             X.yield_acc = lambda v, yh=yh: yh(X, v)
